@@ -63,7 +63,16 @@ func genSegment(t *rapid.T, label string, earlier []string) string {
 		n := rapid.IntRange(100, 3000).Draw(t, label+"-len")
 		return strings.Repeat(rapid.StringMatching(`[a-z0-9 .]`).Draw(t, label), n)
 	case 7:
-		return rapid.SampledFrom([]string{" ", ".", "..", "\\", "s", "home", "\x00", "%2F", "a b", "é", "日本", "🙂"}).Draw(t, label)
+		if rapid.Bool().Draw(t, label+"-rawBytes") { // arbitrary bytes, not necessarily valid UTF-8 (Latin-1 names, truncated sequences)
+			b := rapid.SliceOfN(rapid.Byte(), 1, 6).Draw(t, label+"-bytes")
+			for i := range b {
+				if b[i] == '/' {
+					b[i] = 0xff
+				}
+			}
+			return string(b)
+		}
+		return rapid.SampledFrom([]string{" ", ".", "..", "\\", "s", "home", "\x00", "%2F", "a b", "é", "日本", "🙂", "r\xe9sum\xe9.pdf", "\xff", "\xfe", "\xc0", "\uFFFD", "\xe6\x97"}).Draw(t, label)
 	case 8: // concatenation of two earlier segments (["ab"] vs ["a","b"])
 		if len(earlier) >= 2 {
 			return earlier[len(earlier)-2] + earlier[len(earlier)-1]
